@@ -705,7 +705,9 @@ def explore_components(rep, seq_depth, pair_ios):
             raise RuntimeError("engine error: fresh render of %s is not deterministic" % (k,))
 
     # (a) one object over every sequence of IO kinds, and twice on ONE io object ---------------------
-    def seq_job(f):
+    def seq_job(key):
+        f, first_io = key  # first_io None: the "one IO object twice" cases of that component
+
         def step(state, h):
             got = _render(state[0], state[1], make_io(h[-1]))
             if got != refs[(f, h[-1])]:
@@ -730,7 +732,9 @@ def explore_components(rep, seq_depth, pair_ios):
                 if os.waitpid(pid, 0)[1] != 0:
                     raise RuntimeError("engine error in same-io case %s %s" % (f, io_kind))
 
-        return tree_job(lambda: build_component(f), (), FACTORIES[f][1], seq_depth, step, twice)
+        if first_io is None:
+            return tree_job(lambda: build_component(f), (), [], 0, step, twice)
+        return tree_job(lambda: build_component(f), (first_io,), FACTORIES[f][1], seq_depth, step)
 
     # (b) a second object after another component was rendered in the same process ----------------------
     def pair_allowed(f1, io1, f2, io2):
@@ -758,8 +762,9 @@ def explore_components(rep, seq_depth, pair_ios):
 
     bad = []
     n_seq = 0
-    for f, recs in zip(names, par.pmap(seq_job, names)):
+    for recs in par.pmap(seq_job, [(f, None) for f in names] + keys):  # one job per (component, first IO kind)
         bad.extend(recs)
+    for f in names:
         n_seq += nodes_below(len(FACTORIES[f][1]), seq_depth) + len(FACTORIES[f][1])
     firsts = [k for k in keys if k[1] in pair_ios or FACTORIES[k[0]][0] == "ExceptionTrace"]
     n_pair = 0
@@ -1084,7 +1089,7 @@ def main():
         h, r, nt = explore_histories(rep, "reduced", red, 5, MODES)
         tot_h, tot_r, nontriv = tot_h + h, tot_r + r, nontriv + nt
         rep.set("rotated_reduced_line", red[-1])
-    n_comp, nt_comp = explore_components(rep, 4 if thorough else 3, IO_BASIC if thorough else ["plain", "narrow"])
+    n_comp, nt_comp = explore_components(rep, 4 if thorough else 3, IO_BASIC if thorough else ["plain"])
     n_lay = explore_layout(rep, 5 if thorough else 4)
     n_sty = explore_styles(rep)
     rep.set("rotated_line", spare)
